@@ -37,7 +37,8 @@ ASSUMPTIONS = [
 ]
 FLOORS = {
     "quick": {"monitor:parse.verdict_is_exactly_bool": 200000, "scale:families": 20,
-              "bytes:mutants": 100000, "via:str": 1000, "via:file": 200, "long:cases": 400},
+              "bytes:mutants": 100000, "via:str": 1000, "via:file": 200, "long:cases": 400,
+              "via:bytearray": 2000, "via:debug": 2000},
     "thorough": {"monitor:parse.verdict_is_exactly_bool": 3000000, "scale:families": 20,
                  "bytes:mutants": 2000000, "via:str": 10000, "via:file": 1000,
                  "long:cases": 400},
@@ -93,6 +94,10 @@ def observe(data, res: Result, label, via="bytes", path=None):
     elif via == "file":
         o = lab.parse(data, via_file=path)
         nbytes = len(data)
+    elif via == "bytearray":
+        # a mutable byte string (what socket.recv_into / file.readinto hand out)
+        o = lab.parse(bytearray(data))
+        nbytes = len(data)
     elif via == "debug":
         # Parser(debug=True): traces go to stdout, the contract on the call is the same
         with contextlib.redirect_stdout(_Sink()):
@@ -112,7 +117,7 @@ def observe(data, res: Result, label, via="bytes", path=None):
     elif o.kind == "slow":
         # two consecutive calls already ran into the per-call alarm (parserlab); a third
         # confirmation makes it a verdict: no linear-time behaviour needs 3 x 8 s for this
-        o3 = lab.parse(data if via != "str" else data.decode("utf-8", "replace"))
+        o3 = lab.parse(data if via != "str" else data.decode("utf-8", "replace"))  # bytes again
         if o3.kind == "slow" and via != "debug":
             res.violation({"kind": "cpu-blowup", "size-class": "<=%d" % (
                 1 << max(6, len(data).bit_length()))},
@@ -224,6 +229,8 @@ def run_bytes(shard, res):
                     via = "str"
                 elif r > 0.98:
                     via = "debug"
+                elif r > 0.96:
+                    via = "bytearray"
                 elif r < 0.045:
                     via = "file"
                     with open(tmp.name, "wb") as f:
@@ -255,7 +262,7 @@ def run_long(shard, res):
     tmp.close()
     try:
         for label, data, info in pwork.cases(shard):
-            for via in ("bytes", "str", "file", "debug"):
+            for via in ("bytes", "str", "file", "debug", "bytearray"):
                 if via == "file":
                     with open(tmp.name, "wb") as f:
                         f.write(data)
